@@ -32,7 +32,8 @@ EXPECTED_FILES = {"atlas": ["ATestRun_eljob.py", "package_CMakeLists.txt", "quer
                   "cms_miniaod": ["analyzer_cfg.py", "Analyzer.cc", "BuildFile.xml", "copy_root_tree.C", "runner.sh"]}
 EXTRA_MD = [
     # a realistic multi-line body: two if-blocks, so the closing brace line (and a statement) repeat
-    {"metadata_type": "inject_code", "name": "blkA", "body_includes": ["c02_inc.h"], "private_members": ["int m_c02 = 0;", "int m_c02b = 0;"],
+    {"metadata_type": "inject_code", "name": "blkA", "body_includes": ["c02_inc.h"], "header_includes": ["c02_h1.h", "c02_h2.h"],
+     "private_members": ["int m_c02 = 0;", "int m_c02b = 0;", "C02A m_c02_a;", "C02B m_c02_b;"],
      "ctor_lines": ["if (m_c02 > 5) {", "m_c02 = 0;", "}", "if (m_c02b > 5) {", "m_c02b = 0;", "}"], "initialize_lines": ["m_c02 += 1;", "m_c02b += 1;", "m_c02 += 1;"]},
     {"metadata_type": "add_cpp_function", "name": "C02F", "include_files": ["cmath"], "arguments": ["x"], "code": ["double t = x;\n", "auto result = std::sqrt(t * t) +\n      1.0;"], "return_type": "double"},  # a line break inside a statement, and one after it
     {"metadata_type": "add_job_script", "name": "c02js", "script": ["# c02 job script"], "depends_on": []},
@@ -198,6 +199,11 @@ def run(ctx: Ctx) -> int:
                                f"ds.Select(lambda e: (e.{C}('A').Select(lambda j: j.ttype()), e.{C}('A').Select(lambda j: j.tracks().Select(lambda t: j.ttype()))))",
                                f"ds.SelectMany(lambda e: e.{C}('A')).Select(lambda j: (j.ttype(), j.hits().Select(lambda h: j.ttype())))"]):
             cases.append(diff.Case(backend, t, evgen.gen_events(s, ctx.rng("tt", backend, i), 3), diff.members_used(s, t), tag={"features": {"tree_type_nesting": 2, f"t{i}": 1}}))
+    # the built-in attribute plug-ins: the receiving variable and the instantiated template must agree
+    s = sch.fixed("atlas")
+    for i, t in enumerate(["ds.SelectMany(lambda e: e.Jets('A')).Select(lambda j: (j.getAttributeVectorFloat('vals').Count(), j.getAttributeFloat('emf')))",
+                           "ds.Select(lambda e: e.Jets('A').Select(lambda j: j.getAttributeVectorFloat('vals').Sum()))"]):
+        cases.append(diff.Case("atlas", t, evgen.gen_events(s, ctx.rng("ga", i), 2), diff.members_used(s, t), tag={"features": {"builtin_attribute_plugins": 2, f"t{i}": 1}}))
     # column labels outside ASCII: the names minted from them must still be identifiers of the basic source character set
     for backend in sch.BACKENDS:
         s = sch.fixed(backend)
@@ -229,6 +235,8 @@ def run(ctx: Ctx) -> int:
         inc = jobdir / "inc"
         inc.mkdir(parents=True, exist_ok=True)
         (inc / "c02_inc.h").write_text("// injected include\n")
+        (inc / "c02_h1.h").write_text("#pragma once\nstruct C02A { int a = 0; };\n")
+        (inc / "c02_h2.h").write_text("#pragma once\nstruct C02B { int b = 0; };\n")
         (inc / "myfunc.h").write_text("// injected include\n")
         # (b) compile with the diagnostics visible (no -w)
         flags = [f for f in edm.BASE_FLAGS if f != "-w"]
